@@ -2,8 +2,10 @@
      _compute_hash_from_manifest, BaseHashableModel (compute_hash,
      __attrs_post_init__, evolve, check), HashableObjectWithManifest
      (compute_hash with raw_manifest precedence, check rejecting an unneeded
-     raw manifest, to_dict), and of the swhid() methods of the identified
-     kinds.  Definitions only, all executable.
+     raw manifest), and of the swhid() methods of the identified kinds.
+     (to_dict of HashableObjectWithManifest only drops a None raw_manifest: it
+     belongs to the dictionary round trip, property C12.)
+     Definitions only, all executable.
 
    The model is GENERIC in the manifest: an identified object is reduced to
    what the id machinery reads of it -
@@ -165,8 +167,6 @@ Section WithHash.
   Definition unneeded_raw (a : bytes) (raw : option bytes) : Prop :=
     match raw with Some m => H m = H a | None => False end.
 
-  (* HashableObjectWithManifest.to_dict: is the key raw_manifest in the dict? *)
-  Definition to_dict_has_raw (o : hobj) : bool := is_some (h_raw o).
 End WithHash.
 
 (* swhid(): CoreSWHID / ExtendedSWHID (object_type=<member>, object_id=self.id);
